@@ -131,6 +131,43 @@ def body(ctx: Ctx):
     if ctx.distribution.get("preset_for_positionally_passed_param", 0) < 50 or ctx.distribution.get("outcome.ok", 0) < 200:
         raise InfraError(f"generator too thin: {ctx.distribution}")
 
+    # ---- sequences of calls on ONE preset dictionary, as the worker loop makes them: the presets are what init_function
+    # returned for the whole life of the worker (the model passes them by value: nothing a call does can change them)
+    nseq = 150 if ctx.tier == "quick" else 2000
+    seq_diffs = []
+    for sidx in range(nseq):
+        first = gen_case(ctx.rng)
+        while first["mem"] is None:
+            first = gen_case(ctx.rng)
+        presets = [list(x) for x in first["mem"]]
+        memory = dict(presets)                       # the one long-lived object
+        seq = [first] + [dict(gen_case(ctx.rng), mem=presets) for _ in range(ctx.rng.choice([2, 3, 5]))]
+        if ctx.rng.random() < 0.5:
+            # calls of one function with varying keyword subsets (what a worker typically sees)
+            seq = [dict(c, sig=first["sig"]) for c in seq]
+            for c in seq[1:]:
+                names = [n for n, _ in first["sig"]]
+                c["args"] = [ctx.rng.randrange(0, 9) for _ in range(ctx.rng.randrange(0, len(names) + 1))]
+                c["kwargs"] = [[n, 40 + j] for j, n in enumerate(names[len(c["args"]):]) if ctx.rng.random() < 0.4]
+        spec_seq = [canon(r) for r in m.ask_many([to_model(dict(c, mem=presets), "spec_call") for c in seq])]
+        for k, (c, sp) in enumerate(zip(seq, spec_seq)):
+            fn, _ = make_fn(c["sig"])
+            inp = {"fn": fn, "args": tuple(c["args"]), "kwargs": dict(c["kwargs"])}
+            try:
+                res = call_funct(input_dict=inp, funct=None, memory=memory)
+                got = canon({"ok": [[a, b] for a, b in res.items()]})
+            except TypeError as e:
+                got = canon(classify_type_error(e))
+            ctx.case({"seq": sidx, "k": k, "sig": c["sig"], "args": c["args"], "kwargs": c["kwargs"], "mem": presets}, nontrivial=k > 0)
+            ctx.count("sequence_calls")
+            if got != sp or memory != dict(presets):
+                seq_diffs.append({"kind": "call_funct_sequence", "sequence": [{"sig": x["sig"], "args": x["args"], "kwargs": x["kwargs"]} for x in seq[: k + 1]],
+                                  "presets": presets, "impl": got, "model": sp, "spec": sp, "memory_after": sorted(memory.items()),
+                                  "failing": True, "case": c})
+                break
+    if seq_diffs:
+        diffs.extend(seq_diffs[:3])
+
     # ---- executor level: init_function on real workers, presets persist over calls --------------
     import executorlib
 
